@@ -457,7 +457,7 @@ def gen_lexicon(rng, lmfver, lexid, lexver, profile=None, base=None, language=No
     # ---------------- syntactic behaviours
     fmode = p['frames']
     if fmode == 'auto':
-        fmode = r.choice(['none', 'subcat', 'subcat', 'subcat']) if lmfver != '1.0' else r.choice(['none', 'entry', 'entry'])
+        fmode = r.choice(['none', 'subcat', 'subcat', 'senses']) if lmfver != '1.0' else r.choice(['none', 'entry', 'entry'])
     frame_strings = ['Somebody ----s', 'Something ----s something', 'It is ----ing', g.attr_string() + ' %s']
     frame_strings = list(dict.fromkeys(frame_strings))
     if fmode == 'entry' and lmfver == '1.0' and not ext:
@@ -488,8 +488,10 @@ def gen_lexicon(rng, lmfver, lexid, lexver, profile=None, base=None, language=No
             fr = {'subcategorizationFrame': fs}
             if g.opt(0.5):
                 fr['id'] = f'{pre}fr{i + 1}'
-            if local_sense_ids and g.opt(0.7):
-                fr['senses'] = r.sample(local_sense_ids, r.randint(1, len(local_sense_ids)))
+            # (an extension may also give a frame to a sense of its base, naming the ExternalSense)
+            pool_ = local_sense_ids + (ext_sense_ids if ext else [])
+            if pool_ and g.opt(0.7):
+                fr['senses'] = r.sample(pool_, r.randint(1, len(pool_)))
             frames.append(fr)
         lex['frames'] = frames
         # both encodings side by side (valid): other senses point to an id-carrying frame via subcat
